@@ -136,7 +136,14 @@ impl Finished {
         let mut v = format!("{:?}|", self.status).into_bytes();
         v.extend_from_slice(&self.stdout);
         v.push(0);
-        v.extend_from_slice(&self.stderr);
+        // a Rust panic message carries the OS thread id: not part of the behaviour
+        let se = self.stderr_text();
+        let se: String = se
+            .lines()
+            .map(|l| if l.starts_with("thread '") && l.contains("panicked at") { "thread panicked".to_string() } else { l.to_string() })
+            .collect::<Vec<_>>()
+            .join("\n");
+        v.extend_from_slice(se.as_bytes());
         v.push(0);
         v.extend_from_slice(&self.shim_log);
         fnv64(&v)
